@@ -2101,7 +2101,18 @@ def _rule_arguments(ctx: Ctx, r: LockRoles) -> None:
     # R7: from the OS acquire call, time.sleep is reachable only through the true edge of a `blocking` test
     sleeps = [n for n in g.nodes if n.kind == 'call' and g.res.path(n.ast.func) == 'time.sleep']
     def is_blocking_branch(n: Node) -> bool:
-        return n.kind == 'branch' and isinstance(n.meta['test'], ast.Name) and n.meta['test'].id == bp
+        if n.kind != 'branch' or not isinstance(n.meta['test'], ast.Name):
+            return False
+        if n.meta['test'].id == bp:
+            return True
+        # a copy of the normalised flag taken after the normalisation (`wait = _Wait(blocking, ...)` ... `wait.blocking`)
+        rv = resolve(g, n, n.meta['test'], keep=(bp,))
+        if isinstance(rv, ast.Name) and rv.id == bp:
+            copies = [x for x in g.nodes if x.kind == 'store_name' and x.meta['name'] == n.meta['test'].id]
+            later = [x for x in g.nodes if x.kind == 'store_name' and x.meta['name'] == bp and not x.meta.get('inlined_param')
+                     and any(find_path(g, [c_], [x]) is not None for c_ in copies)]
+            return len(copies) == 1 and not later
+        return False
     for oc in os_calls:
         starts = [e for e in g.succ[oc.id] if e.label != 'exc']
         w = find_path(g, [], sleeps + os_calls, start_edges=starts,
